@@ -15,6 +15,9 @@ type ConvCase struct {
 	Focus  string // trigger class for signatures
 	Has64  bool   // a 64-bit integer kind is involved (Int642String changes the documented form)
 	NonFin bool   // the message contains a non-finite float
+	Shape  Shape  // shape of the field under test (zero for the presence / jsonnames / recursion families)
+	Ctx    string // embedding context of the FUT ("" for those families)
+	Num    int    // FUT field number
 	Build  func(ref *Ref) protoreflect.Message
 }
 
@@ -46,6 +49,22 @@ func sameNumberFollows(ctx string, num int) bool {
 }
 
 // keyClass groups map key kinds by wire encoding.
+func KeyClass(k Kind) string { return keyClass(k) }
+
+// ValClass groups value kinds for trigger classes: int, float, bool, string, bytes, enum, message.
+func ValClass(k Kind) string {
+	switch {
+	case IsInt(k):
+		return "int"
+	case k == Float || k == Double:
+		return "float"
+	}
+	return KindName(k)
+}
+
+// WireCard is the wire-level cardinality class of a shape: singular, packed-list, unpacked-list, map.
+func WireCard(sh Shape) string { return wireCard(sh) }
+
 func keyClass(k Kind) string {
 	switch k {
 	case Int32, Int64, Uint32, Uint64:
@@ -104,6 +123,7 @@ func valueCasesIn(ctx, group string, yield func(*ConvCase) bool) bool {
 			Focus:  fmt.Sprintf("%s:%s%s", ctxClass, KindName(k), classSuffix(k, v)),
 			Has64:  has64(sh),
 			NonFin: ValueClass(k, v) == "non-finite",
+			Shape:  sh, Ctx: ctx, Num: num,
 			Build: func(ref *Ref) protoreflect.Message {
 				return BuildRoot(ref, ctx, func(h protoreflect.Message, _ int) { SetFUT(h, sh, fv) })
 			},
@@ -342,7 +362,7 @@ func structCases(tier, group string, yield func(*ConvCase) bool) bool {
 					if Holders(ctx) == 2 {
 						what += " / " + b.tag
 					}
-					c := &ConvCase{Prog: prog, What: what, Focus: focus, Has64: has64(sh),
+					c := &ConvCase{Prog: prog, What: what, Focus: focus, Has64: has64(sh), Shape: sh, Ctx: ctx, Num: num,
 						Build: func(ref *Ref) protoreflect.Message {
 							return BuildRoot(ref, ctx, func(h protoreflect.Message, idx int) {
 								if idx == 0 {
